@@ -118,6 +118,85 @@ def token(data):
     return normalize(hash_long(data))
 
 
+# --- inversion: keys with a chosen hash ---------------------------------------------------
+# Every step of the finalisation and of the 16-byte body-block mixing is a bijection on 64-bit
+# words (multiplication by an odd constant, rotation, x ^= x >> 33, addition of a known word), so
+# a key ending in a full 16-byte block can be solved for ANY wanted h1.  Used to reach hash values
+# random keys never hit (Long.MIN_VALUE has probability 2**-64).
+_INV_C1 = pow(C1, -1, 1 << 64)
+_INV_C2 = pow(C2, -1, 1 << 64)
+_INV_5 = pow(5, -1, 1 << 64)
+_INV_F1 = pow(0xFF51AFD7ED558CCD, -1, 1 << 64)
+_INV_F2 = pow(0xC4CEB9FE1A85EC53, -1, 1 << 64)
+
+
+def _rotr(x, r):
+    return ((x >> r) | (x << (64 - r))) & M64
+
+
+def _unfmix(k):
+    k ^= k >> 33                       # x ^ (x >> 33) is its own inverse on 64 bits (2 * 33 > 64)
+    k = (k * _INV_F2) & M64
+    k ^= k >> 33
+    k = (k * _INV_F1) & M64
+    k ^= k >> 33
+    return k
+
+
+def _unmix_k1(m):
+    return (_rotr((m * _INV_C2) & M64, 31) * _INV_C1) & M64
+
+
+def _unmix_k2(m):
+    return (_rotr((m * _INV_C1) & M64, 33) * _INV_C2) & M64
+
+
+def _state_after_blocks(data):
+    """(h1, h2) after the body loop over ``data`` (length a multiple of 16), seed 0."""
+    h1 = h2 = 0
+    for off in range(0, len(data), 16):
+        k1 = int.from_bytes(data[off:off + 8], "little")
+        k2 = int.from_bytes(data[off + 8:off + 16], "little")
+        h1 ^= _mix_k1(k1)
+        h1 = _rotl(h1, 27)
+        h1 = (h1 + h2) & M64
+        h1 = (h1 * 5 + 0x52DCE729) & M64
+        h2 ^= _mix_k2(k2)
+        h2 = _rotl(h2, 31)
+        h2 = (h2 + h1) & M64
+        h2 = (h2 * 5 + 0x38495AB5) & M64
+    return h1, h2
+
+
+def key_with_hash(target_h1, prefix=b"", other=0):
+    """A key ``prefix + 16 bytes`` whose hash3_x64_128 h1 (as a Java long or as an unsigned word)
+    is ``target_h1``.  ``prefix`` must be a whole number of 16-byte blocks; ``other`` (any 64-bit
+    word) is the value fmix64 gives the second half and selects one of the 2**64 solutions."""
+    prefix = bytes(prefix)
+    if len(prefix) % 16:
+        raise ValueError("prefix must be a multiple of 16 bytes")
+    n = len(prefix) + 16
+    want = target_h1 & M64
+    f2 = other & M64
+    f1 = (want - f2) & M64              # result h1 = fmix(a1) + fmix(a2)
+    a1 = _unfmix(f1)
+    a2 = _unfmix(f2)
+    b2 = (a2 - a1) & M64                # a2 = b2 + a1 ; a1 = b1 + b2
+    b1 = (a1 - b2) & M64
+    H1 = b1 ^ n                         # state after the last block
+    H2 = b2 ^ n
+    p1, p2 = _state_after_blocks(prefix)
+    t = ((H2 - 0x38495AB5) * _INV_5) & M64
+    t = (t - H1) & M64
+    t = _rotr(t, 31)
+    k2 = _unmix_k2(t ^ p2)
+    u = ((H1 - 0x52DCE729) * _INV_5) & M64
+    u = (u - p2) & M64
+    u = _rotr(u, 27)
+    k1 = _unmix_k1(u ^ p1)
+    return prefix + k1.to_bytes(8, "little") + k2.to_bytes(8, "little")
+
+
 # --- hand-verified vectors --------------------------------------------------------------
 # canonical MurmurHash3_x64_128, seed 0, as published with the reference implementation
 # (hex digest = h1 big-endian || h2 big-endian); all-ASCII input, so Cassandra's variant
@@ -156,4 +235,16 @@ def self_check():
     # the signed tail must matter: 0x80 in the tail differs from the canonical variant
     if hash3_x64_128(b"\x80", 0, True) == hash3_x64_128(b"\x80", 0, False):
         bad.append(("signed-tail-not-effective", b"\x80", None))
+    # the inversion against the forward hash (deterministic sample of targets / prefixes / free words)
+    x = 0x9E3779B97F4A7C15
+    for i in range(60):
+        x = (x * 6364136223846793005 + 1442695040888963407) & M64
+        tgt = [MIN_LONG, MAX_LONG, -1, 0, MIN_LONG + 1, to_signed64(x)][i % 6]
+        pre = bytes((x >> (8 * (j % 8)) ^ j * 37) & 0xFF for j in range(16 * (i % 4)))
+        k = key_with_hash(tgt, pre, x ^ (i * 0x0123456789ABCDEF))
+        if len(k) != len(pre) + 16 or k[:len(pre)] != pre or hash_long(k) != tgt:
+            bad.append(("key_with_hash", tgt, k))
+    for w in (0, 1, 0x8000000000000000, M64, x):
+        if _unfmix(_fmix(w)) != w or _unmix_k1(_mix_k1(w)) != w or _unmix_k2(_mix_k2(w)) != w:
+            bad.append(("inverse-step", w, None))
     return bad
